@@ -86,7 +86,8 @@ def cstr(fr, none_for_one=True):
         return None
     if fr.denominator == 1:
         return str(fr.numerator)
-    return format(Decimal(fr.numerator) / Decimal(fr.denominator), "f")
+    from ..dec import HI
+    return format(HI.divide(Decimal(fr.numerator), Decimal(fr.denominator)), "f")
 
 
 def jnum(fr):
@@ -674,6 +675,16 @@ DECIMALS = ["0.1", "0.3", "1.7", "2.05", "0.001", "12.5", "3", "0.7", "1E-3", "0
 
 
 def check_decimal(ctx, case):
+    # Decimal counts are multiplied by the library in the caller's decimal context: a caller who asks for exact
+    # Decimal counts works at a precision that holds them, so this case runs in the 80-digit context whatever
+    # the ambient layer (pbt/ambient.py) has set for the thread
+    import decimal
+    from ..dec import HI
+    with decimal.localcontext(HI):
+        _check_decimal(ctx, case)
+
+
+def _check_decimal(ctx, case):
     from decimal import Decimal as D
     E = env()
     pool, table, formula = E["pool"], E["table"], E["formula"]
